@@ -348,7 +348,9 @@ func addMaximumConstraint(
 ) {
 	requirements := map[string]nextroute.StopExpression{}
 	limits := map[string]nextroute.VehicleTypeValueExpression{}
-	for name := range names {
+	// The constraints are added in the order of the resource names, ranging
+	// over the map itself gives a different order from one model to the next.
+	for _, name := range common.Keys(names) {
 		requirement := nextroute.NewStopExpression(name, 0.)
 		limit := nextroute.NewVehicleTypeValueExpression(name, 0.)
 		maximum, err := nextroute.NewMaximum(requirement, limit)
